@@ -72,10 +72,16 @@ package iface
 //@   assigns stub.placeHolderIns.off, ticket_lo, ticket_hi, textmem, perm, rw_wheld[addr(memory.memoryAccessLock)]
 //@   ensures error_or_stub: result1 != nil ==> result0 == 0
 
-// GenCallableMethod reads the func-value word of a reflect.Value through hack.Value (unsafe) and
-// builds the stub: TRUSTED.  Whether the callback embedded in the stub stays reachable for the GC is
-// not expressible as a contract on this code (see DESIGN, C07 retention).
-//@ trusted func GenCallableMethod
+// GenCallableMethod bakes the address of a func value (the callback, or the MakeFunc value that forwards to the
+// When stub) into executable memory, where the garbage collector does not look.  Retention (C07: "the mock stays
+// callable for as long as the variable holds it, even if the builder is dropped"): every such func value is
+// appended to ctx.p.retained - the context is the data word of the fabricated interface value, so whatever it
+// references stays reachable for as long as the variable holds the mock - and earlier entries are kept.
+//@ func GenCallableMethod
 //@   props C07
-//@   assigns stub.placeHolderIns.off, ticket_lo, ticket_hi, textmem, perm, rw_wheld[addr(memory.memoryAccessLock)], ctx.p.proxyFunc
-//@   may_panic
+//@   requires context: ctx != nil && ctx.p != nil && apply != nil && 0 <= len(ctx.p.retained) && len(ctx.p.retained) < 0x10000
+//@   requires holder: stub.holder_wf()
+//@   assigns everything
+//@   ensures embedded_func_value_anchored_in_the_context: len(ctx.p.retained) == old(len(ctx.p.retained)) + 1 && (proxy == nil ==> ctx.p.retained[len(ctx.p.retained) - 1] == apply)
+//@   ensures earlier_anchors_kept: forall k int :: 0 <= k && k < old(len(ctx.p.retained)) ==> ctx.p.retained[k] == old(ctx.p.retained[k])
+//@   panics_only_if stub_space_or_symbol_lookup_failed: true
